@@ -138,6 +138,21 @@ def c01(ctx):
                         "Vec-backed containers are judged by the weakest documented list contract (flags ignored)"]
 
 
+def c11(ctx):
+    binary = build()
+    mc = Bg(lambda: model_check(ctx, "MC_Views", workers=4, timeout=600))
+    tr = os.path.join(ctx.traces, "views.ndjson")
+    nh, ln = (60, 40) if ctx.quick() else (400, 60)
+    sv(binary, ["views", "--seed", ctx.seed, "--hist", nh, "--len", ln, "--out", tr])
+    store_validate(ctx, tr, "view history")
+    mc.join()
+    ctx.rule = ("MC_Views: all histories of direct/view mutations over 2 graph names + default + an absent name model-checked (frame condition, view = filter); "
+                "%d random histories x %d ops per store type through graph/graph_mut/union_graph/partial_union_graph/into_union_graph on 5 dataset types and "
+                "as_dataset/as_dataset_mut/into_dataset on 5 graph types; distinct = distinct events" % (nh, ln))
+    ctx.assumptions += ["term enumerations of views are judged loosely (superset of the view's terms, subset of the selected quads' terms)"]
+
+
 FAMILIES = {
+    "C11": c11,
     "C01": c01,
 }
